@@ -71,6 +71,16 @@ def cases(ctx):
         if kind not in ("int",) and rng.random() < 0.3:  # replicates of another magnitude (small rates, large counts): exact power-of-two scaling
             c = 2.0 ** int(rng.integers(-45, 46))
             th, that, kind = th * c, that * c, kind + "*2^k"
+        if i % 40 == 7:
+            # beyond the pole of (11.39): replicates dominated by one far outlier (|a| close to 1/6), the estimate just inside the extreme
+            # replicates (|z0| about 3) and a small alpha, so that a*(z0 + z_alpha) >= 1 - the documented formula is claimed there, too
+            N = int(rng.choice([600, 1000, 2000]))
+            sgn = float(rng.choice([-1.0, 1.0]))
+            th = np.abs(rng.normal(0, 1e-3, N))
+            th[int(rng.integers(0, N))] = float(rng.choice([0.8, 5.0, 0.05]))
+            that = float(np.sort(th)[-2] * 1.01)
+            th, that = sgn * th, sgn * that
+            alpha, kind = float(rng.choice([0.001, 0.0005, 1e-4, 0.002])), "pole"
         yield {"theta": th, "that": that, "alpha": alpha, "alpha2": float(rng.uniform(0.001, 0.999)), "kind": kind,
                "ashape": [int(x) for x in rng.integers(1, 3, int(rng.integers(0, 4)))], "yshape": [int(x) for x in rng.integers(1, 4, int(rng.integers(1, 3)))],
                "_seed": int(rng.integers(1 << 31)), "k": int(rng.integers(-2, 4)), "d": int(rng.integers(-5, 6))}
@@ -119,6 +129,12 @@ def execute(ctx, case):
     scale = float(np.abs(fin).max()) or 1.0  # relative to the replicates' own magnitude
     tol = 1e-9 * scale + 4e-14 * len(th) * (hi_f - lo_f)
     sess.observe("R-bci")
+    # documented defaults: alpha=0.05, method="quantile" (which needs no point estimate); leaving them out must mean exactly that
+    d_all = bootstrap_ci(th, that, 0.05, method="quantile")
+    sess.check("R-bci", np.array_equal(bootstrap_ci(th, that), d_all, equal_nan=True) and np.array_equal(bootstrap_ci(th), d_all, equal_nan=True)
+               and np.array_equal(bootstrap_ci(th, that, alpha), bootstrap_ci(th, that, alpha, method="quantile"), equal_nan=True),
+               "bootstrap_ci with alpha / method / theta_hat left out differs from the documented defaults (0.05, quantile) spelled out",
+               lambda: {"theta": th, "theta_hat": that, "alpha": alpha, "omitted": bootstrap_ci(th, that), "explicit": d_all}, sig=("defaults", case["kind"]), key="bci-defaults")
     for method in METHODS:
         sig = (method, case["kind"], "N%d" % len(th) if len(th) <= 3 else "N>3")
         ci = bootstrap_ci(th, that, alpha, method=method)  # judged by M-bci (formula + shape)
